@@ -2,6 +2,7 @@
 crosshair.core.explore_paths) driven directly, extended to keep statistics, to continue
 after refuted paths (known findings / spurious counterexamples), and to replay every
 counterexample concretely before it is reported."""
+import os
 import sys
 import time
 import traceback
@@ -87,8 +88,11 @@ def explore(fn, part, budget_s=60.0, per_path_s=20.0, max_paths=10 ** 9, known_s
     q0, qt0 = SOLVER['queries'], SOLVER['time']
     known_sigs = set(known_sigs)
     seen_sigs = set()
+    stop_at_first = bool(os.environ.get('VERIF_STOP_AT_FIRST'))     # evaluation of seeded changes: one counterexample suffices
     while st['iters'] < max_paths:
         if monotonic() - t_start > budget_s:
+            break
+        if stop_at_first and st['violations']:
             break
         st['iters'] += 1
         now = process_time()
